@@ -104,7 +104,7 @@ func VerifHarness_C20_main() {
 	cmd := cmds[rt.Choice("cmd", len(cmds))]
 	exts := []string{"s.par", "s.par2", "dir/s.par2", "s.txt", "s", "", "a.b.par2", "a.b.par", "d.x/s.par2"}
 	file := exts[rt.Choice("file", len(exts))]
-	flagKind := rt.Choice("flags", 4)
+	flagKind := rt.Choice("flags", 5)
 	c20Outcome, c20Lib, c20Path = -1, 0, ""
 
 	args := []string{"par"}
@@ -119,6 +119,18 @@ func VerifHarness_C20_main() {
 	}
 	if flagKind == 3 {
 		args = append(args, "-nosuchflag")
+	}
+	if flagKind == 4 {
+		// a flag the sub-command knows, after the command word
+		switch map[string]string{"c": "create", "create": "create", "C": "create", "v": "verify", "verify": "verify", "Verify": "verify",
+			"r": "repair", "repair": "repair", "REPAIR": "repair"}[cmd] {
+		case "create":
+			args = append(args, "-c", "2")
+		case "verify":
+			args = append(args, "-a")
+		case "repair":
+			args = append(args, "-doublecheck")
+		}
 	}
 	nData := 0
 	if file != "" {
